@@ -3,6 +3,7 @@ package prog
 import (
 	"context"
 	"fmt"
+	"github.com/yorkie-team/yorkie/pkg/document/yson"
 	"math"
 	"os"
 	"sort"
@@ -596,6 +597,43 @@ func (r *Runner) Step(s Step) *Failure {
 			r.S.BE.Cache.Snapshot.Remove(di.RefKey())
 		}
 		r.Ev["cache_remove"]++
+		return nil
+	case s.Op == "adminedit":
+		// The admin API "edit document" (documents.UpdateDocument): the server
+		// builds the head (through the snapshot cache), applies the given YSON
+		// to it and pushes the change as the system client. C odd: the edit is
+		// REFUSED by a schema rule after it was applied to the built document -
+		// nothing may remain of it anywhere.
+		di, err := r.DocInfo()
+		if err != nil {
+			return failf("HARNESS", "docinfo: %v", err)
+		}
+		key := fmt.Sprintf("adm%d", s.A%2)
+		root := yson.Object{key: int32(s.B)}
+		refused := s.C%2 == 1
+		var schema *types.Schema
+		mode := documents.UpdateModeRootOnly
+		if refused {
+			schema = &types.Schema{Name: "verif", Version: 1, Rules: []types.Rule{{Path: "$." + key, Type: "string"}}}
+			mode = documents.UpdateModeBoth
+		}
+		before := di.ServerSeq
+		_, uerr := documents.UpdateDocument(r.ctx, r.S.BE, r.Proj, di, root, schema, mode)
+		r.S.WaitIdle()
+		r.log("admin: edit document %s=%d (refused by schema: %v) at head %d -> err=%v", key, s.B, refused, before, uerr)
+		switch {
+		case refused && uerr == nil:
+			return failf("ADMINEDIT-ACCEPTED", "an admin edit that violates the given schema rule was accepted")
+		case refused:
+			r.Ev["admin_edit_refused"]++
+			if di2, err := r.DocInfo(); err == nil && di2.ServerSeq != before {
+				return failf("REFUSED-ADMINEDIT-STORED", "the refused admin edit moved the head %d -> %d", before, di2.ServerSeq)
+			}
+		case uerr != nil:
+			return failf("ADMINEDITFAIL", "documents.UpdateDocument(%s=%d) at head %d: %v", key, s.B, before, uerr)
+		default:
+			r.Ev["admin_edit"]++
+		}
 		return nil
 	case s.Op == "histview":
 		di, err := r.DocInfo()
